@@ -4,10 +4,13 @@
 package main
 
 import (
+	crand "crypto/rand"
 	"crypto/sha256"
 	"encoding/hex"
+	"errors"
 	"flag"
 	"fmt"
+	"io"
 	"math/rand"
 	"os"
 	"runtime"
@@ -51,6 +54,21 @@ func ints(b []byte) []int {
 		o[i] = int(v)
 	}
 	return o
+}
+
+// flakyReader: an entropy source that delivers half of the first request and an error, then works
+type flakyReader struct {
+	real  io.Reader
+	calls int
+}
+
+func (f *flakyReader) Read(p []byte) (int, error) {
+	f.calls++
+	if f.calls == 1 {
+		n, _ := f.real.Read(p[:len(p)/2])
+		return n, errors.New("interrupted")
+	}
+	return f.real.Read(p)
 }
 
 func cps(s string) []int {
@@ -754,7 +772,14 @@ func recoverDrive(r *rand.Rand, tier string, tr *trace.Buf) {
 			for rep := 0; rep < reps; rep++ {
 				for _, fresh := range []bool{false, true} {
 					var x *xmss.XMSS
-					if fresh {
+					if fresh && rep%2 == 1 {
+						orig := crand.Reader
+						crand.Reader = &flakyReader{real: orig}
+						for try := 0; try < 3 && x == nil; try++ {
+							call(func() { x = xmss.NewXMSSFromHeight(uint8(h), xmss.HashFunction(hf)) })
+						}
+						crand.Reader = orig
+					} else if fresh {
 						x = xmss.NewXMSSFromHeight(uint8(h), xmss.HashFunction(hf))
 					} else {
 						var seed [48]uint8
@@ -906,7 +931,16 @@ func recoverDrive(r *rand.Rand, tier string, tr *trace.Buf) {
 		fresh := q%2 == 1
 		var d *dilithium.Dilithium
 		var err error
-		if fresh {
+		if fresh && q%4 == 3 {
+			// the entropy source fails once (some bytes, then an error) and works afterwards; the caller asks
+			// again until it gets a key: whatever key it gets must be recoverable from what it exports
+			orig := crand.Reader
+			crand.Reader = &flakyReader{real: orig}
+			for try := 0; try < 3 && d == nil; try++ {
+				d, err = dilithium.New()
+			}
+			crand.Reader = orig
+		} else if fresh {
 			d, err = dilithium.New()
 		} else {
 			var seed [48]uint8
